@@ -14,9 +14,10 @@ from typing import Any
 from .. import core, escommon, decomp_common as dc
 from ..gen.programs import Cfg
 from . import c02
+from .. import decomp_front as dfr
 
-MODULES = ["ESV.Props.C07"]
-THEOREMS = ["ESV.C07.ssbscript_roundtrip", "ESV.C07.decompile_ok", "ESV.C07.roundtrip_eq_canon", "ESV.C07.canon_iso"]
+MODULES = ["ESV.Props.C07"] + dfr.MODULES
+THEOREMS = dfr.THEOREMS + ["ESV.C07.ssbscript_roundtrip", "ESV.C07.decompile_ok", "ESV.C07.roundtrip_eq_canon", "ESV.C07.canon_iso"]
 MARKER_LINE = "//?: is-ssb-script: true"
 
 
@@ -42,6 +43,59 @@ def exact(x: dict, y: dict) -> str | None:
         if pa != pb:
             return f"op {i} ({a['name']}): parameters {pb} vs {pa}"
     return None
+
+
+# What convert() does outside its try block, and how the try is guarded: the totality argument is
+#   resolve_total (theorem: label resolution never raises on well-formed sets)  +  everything else that can raise sits in
+#   `try: ... except Exception:` whose handler calls SsbScriptSsbDecompiler(...).convert (theorem ESV.C07.decompile_ok).
+# The shape is read from the current source on every run and compared with this pinned reading.
+PINNED_CONVERT_SHAPE = {
+    "before_try_calls": ["set", "SourceMapBuilder", "deepcopy", "OpsLabelJumpToResolver", "list", "any"],
+    "try_handlers": ["Exception"],
+    "handler_calls": ["SsbScriptSsbDecompiler", "convert"],
+    "handler_returns": True,
+    "after_try": 0,
+}
+
+
+def dfr_handler_shape() -> dict:
+    import ast
+    src = open(os.path.join(core.REPO, "explorerscript", "ssb_converting", "ssb_decompiler.py")).read()
+    tree = ast.parse(src)
+    fn = None
+    for node in ast.walk(tree):
+        if isinstance(node, ast.ClassDef) and node.name == "ExplorerScriptSsbDecompiler":
+            for b in node.body:
+                if isinstance(b, ast.FunctionDef) and b.name == "convert":
+                    fn = b
+    if fn is None:
+        return {"shape": {"error": "convert() not found"}}
+
+    def calls(nodes: list, skip_nested_comprehension_calls: bool = True) -> list[str]:
+        out: list[str] = []
+        for n in nodes:
+            for c in ast.walk(n):
+                if isinstance(c, ast.Call):
+                    f = c.func
+                    name = f.id if isinstance(f, ast.Name) else f.attr if isinstance(f, ast.Attribute) else "?"
+                    if name in ("debug", "warning", "info", "isinstance"):
+                        continue
+                    if name not in out:
+                        out.append(name)
+        return out
+    body = fn.body
+    ti = next((i for i, st in enumerate(body) if isinstance(st, ast.Try)), None)
+    if ti is None:
+        return {"shape": {"error": "no try in convert()"}}
+    t = body[ti]
+    shape = {
+        "before_try_calls": calls(body[:ti]),
+        "try_handlers": [(h.type.id if isinstance(h.type, ast.Name) else ast.dump(h.type)) if h.type is not None else "bare" for h in t.handlers],
+        "handler_calls": [c for c in calls(t.handlers[0].body) if c in ("SsbScriptSsbDecompiler", "convert")] if t.handlers else [],
+        "handler_returns": bool(t.handlers) and isinstance(t.handlers[0].body[-1], ast.Return),
+        "after_try": len(body) - ti - 1 + len(t.finalbody) + len(t.orelse),
+    }
+    return {"shape": shape}
 
 
 def random_sets(run: core.Run, n: int) -> list[dict]:
@@ -102,6 +156,12 @@ def run(run: core.Run) -> int:
         for i, s_ in enumerate(sets):
             s_["twice"] = i % 6 == 5     # every sixth set: the answer of a second convert() of the same decompiler object
         results = dc.pipeline_all(pool, sets, timeout=40, single_timeout=12)
+        # the modelled front phases (label resolution runs OUTSIDE convert()'s try; ESV.DecompFront.resolve_total)
+        front = dfr.front_channels(run, pool, drv, sets, jobs)
+        handler = dfr_handler_shape()
+        if handler["shape"] != PINNED_CONVERT_SHAPE:
+            run.broken_tie("convert() no longer has the shape the totality argument rests on (statements before the try / handler of the try)",
+                           {"channel": "convert_shape", "found": handler["shape"], "pinned": PINNED_CONVERT_SHAPE})
     finally:
         pool.close()
     n_viol = 0
@@ -160,7 +220,7 @@ def run(run: core.Run) -> int:
         "evaluations": len(sets), "distinct_nontrivial": core.distinct(s["rs"]["ops"] for s in sets),
         "rule": "well-formed routine sets (every path ends in a flow-ending op, no Jump-only cycle, targets exist; checked by the Lean machine): real compiler output of generated programs incl. labels/jump/call/cross-routine jumps/dead code, plus random routine sets with arbitrary jump graphs (irreducible loops, jumps into blocks, jump-only routines); non-trivial = distinct op lists",
         "samples": [s["rs"] for s in sets[:2]],
-        "outcomes": dict(cnt), "exceptions": dict(exc_cnt),
+        "outcomes": dict(cnt), "exceptions": dict(exc_cnt), "front_phases": front, "convert_shape": handler["shape"],
         "obligations": aud["obligations"], "discharged": aud["discharged"] if prep["proofs_ok"] else 0,
         "theorems": THEOREMS, "tables": prep.get("tables"),
     }
@@ -179,6 +239,10 @@ def replay(run: core.Run, path: str) -> int:
     d = r["dec"]
     if "error" in d:
         print("VIOLATION-REPLAY", d["error"], d.get("msg", "")[:200])
+        return 1
+    ff = dfr.replay_front(rs)
+    if ff:
+        print("VIOLATION-REPLAY", ff)
         return 1
     if r.get("fallback"):
         y = r["recompiled"]
